@@ -126,6 +126,6 @@ CHECKS = {
         "(A/D/O/K count their number, Y counts 4, X between the given context lengths; nothing generated = kept; shortest >= min and longest <= max, 0 unbounded; every label letter in the set; every regex matches the structure). All paths: the only statements of edit_rules.py that change the file system are open(<rules_dir>/<rule>/Grammar/grammar.txt, 'w') and shutil.copytree(source, copy). "
         "Bounded: grammar.txt after editing == original minus the structures failing the requested filters, survivors unchanged and in order, other files byte-identical, --copy leaves the source "
         "untouched, guesses of the edited ruleset within the length bounds (context-sensitive segments: defect F12, repaired).",
-   note="re.findall/re.search/split/strip/int() uninterpreted (A-TOK validated only by the stand-in); _context_lengths and the effect of shutil.copytree are trusted (A-COPYTREE); A-SPLIT-CONCAT is a precondition of edit_rules(); exceptional exits unconstrained"),
+   note="re.findall/re.search/split/strip/int() uninterpreted (A-TOK validated only by the stand-in); _context_lengths has a verified body contract (min/max/rsplit/listdir uninterpreted) and a trusted call-site summary; the effect of shutil.copytree is trusted (A-COPYTREE); A-SPLIT-CONCAT is a precondition of edit_rules(); exceptional exits unconstrained"),
 }
 NOT_APPLICABLE = {}
